@@ -105,6 +105,26 @@ ReuseVectors(name) ==
   { [id |-> name \o "/" \o a[1] \o "->" \o c[1], prop |-> "C17", kind |-> "reuse", layer |-> GoLayer(name), class |-> a[1] \o "->" \o c[1],
      first |-> a[2], second |-> c[2], exp |-> [any |-> TRUE]] : a \in Members(name), c \in Members(name) }
 
+\* variable-length layers without a fixed table: DCMI sensor info (count + record IDs), cipher suite chunks
+SensorInfoBytes(total, ids) == <<total, Len(ids)>> \o Flatten([i \in 1..Len(ids) |-> LE16(ids[i])])
+VarReuse ==
+  LET si == { <<"n0", SensorInfoBytes(0, <<>>)>>, <<"n1", SensorInfoBytes(9, <<4660>>)>>, <<"n3", SensorInfoBytes(3, <<1, 2, 3>>)>>,
+              <<"n8", SensorInfoBytes(12, <<11, 12, 13, 14, 15, 16, 17, 18>>)>>, <<"n2", SensorInfoBytes(2, <<65534, 258>>)>> }
+      cs == { <<"c0", <<14>>>>, <<"c16", <<14>> \o [i \in 1..16 |-> i]>>, <<"c5", <<1, 192, 3, 1, 65, 129>>>> }
+  IN { [id |-> "GetDCMISensorInfoRsp/" \o a[1] \o "->" \o c[1], prop |-> "C17", kind |-> "reuse", layer |-> "GetDCMISensorInfoRsp", class |-> a[1] \o "->" \o c[1],
+        first |-> a[2], second |-> c[2], exp |-> [any |-> TRUE]] : a \in si, c \in si }
+     \cup { [id |-> "GetChannelCipherSuitesRsp/" \o a[1] \o "->" \o c[1], prop |-> "C17", kind |-> "reuse", layer |-> "GetChannelCipherSuitesRsp", class |-> a[1] \o "->" \o c[1],
+              first |-> a[2], second |-> c[2], exp |-> [any |-> TRUE]] : a \in cs, c \in cs }
+\* and their decoding (C07): every count 0..8 of record IDs; every chunk length 0..16
+VarDecode ==
+  { [id |-> "GetDCMISensorInfoRsp/dec-" \o ToString(n), prop |-> "C07", kind |-> "decode", layer |-> "GetDCMISensorInfoRsp", class |-> "count-" \o ToString(n),
+     bytes |-> SensorInfoBytes(200 + n, [i \in 1..n |-> (i * 4099 + n) % 65536]),
+     exp |-> [err |-> FALSE, value |-> [Instances |-> 200 + n, RecordIDs |-> [i \in 1..n |-> (i * 4099 + n) % 65536]]]] : n \in 0..8 }
+  \cup { [id |-> "GetDCMISensorInfoRsp/short-" \o ToString(n) \o "-" \o ToString(c), prop |-> "C07", kind |-> "decode", layer |-> "GetDCMISensorInfoRsp", class |-> "short",
+          bytes |-> Take(SensorInfoBytes(5, [i \in 1..c |-> i]), Min(n, 1 + 2 * c)), exp |-> [err |-> TRUE]] : c \in {1, 2, 8, 127, 128, 200, 255}, n \in {0, 1, 2, 3, 4, 5, 17, 511} }
+  \cup { [id |-> "GetChannelCipherSuitesRsp/dec-" \o ToString(n), prop |-> "C07", kind |-> "decode", layer |-> "GetChannelCipherSuitesRsp", class |-> "chunk-" \o ToString(n),
+          bytes |-> <<14>> \o [i \in 1..n |-> (i * 9) % 256], exp |-> [err |-> FALSE, value |-> [Channel |-> 14, CipherSuiteRecordsChunk |-> [i \in 1..n |-> (i * 9) % 256]]]] : n \in 0..16 }
+
 \* -------------------------------------------------------------------- totality
 AllLayers == {"Message", "V1Session", "V2Session", "SessionSelector", "OpenSessionRsp", "RAKPMessage1", "RAKPMessage2", "RAKPMessage4",
               "GetDeviceIDRsp", "GetChassisStatusRsp", "GetSystemGUIDRsp", "GetChannelAuthenticationCapabilitiesRsp", "GetChannelCipherSuitesRsp",
@@ -128,9 +148,9 @@ Totality ==
                   \cup { TotalVec(GoLayer(name), "subst", i * 256 + v, [b EXCEPT ![i] = v]) : i \in 1..Len(b), v \in Subst }
                   : name \in RspNames }
 
-Vectors == CASE Family = "rsp" -> UNION { RspVectors(n) : n \in RspNames } \cup Extra
+Vectors == CASE Family = "rsp" -> UNION { RspVectors(n) : n \in RspNames } \cup Extra \cup VarDecode
              [] Family = "req" -> UNION { ReqVectors(n) : n \in DOMAIN ReqTables } \cup SessionInfoReqs \cup CloseByHandle
-             [] Family = "reuse" -> UNION { ReuseVectors(n) : n \in RspNames }
+             [] Family = "reuse" -> UNION { ReuseVectors(n) : n \in RspNames } \cup VarReuse
              [] Family = "totality" -> Totality
 ASSUME \A v \in Vectors : PrintT(<<"SCRIPT", ToJson(v)>>)
 ASSUME PrintT(<<"COUNT", ToJson([n |-> Cardinality(Vectors)])>>)
